@@ -397,7 +397,8 @@ def serialised_records(F):
     """records whose members are serialised: object classes, their bases, sub-object member types, FileStatistics"""
     out = []
     seen = set()
-    roots = [c for c in F.derived_from(OHB)] + [OHB, 'Vector::BLF::FileStatistics']
+    # ... and File with its stages: their scalar members end up in the header (counters, offsets) or steer what is written (sizes, flags)
+    roots = [c for c in F.derived_from(OHB)] + [OHB, 'Vector::BLF::FileStatistics', 'Vector::BLF::File']
     todo = list(roots)
     while todo:
         c = todo.pop()
@@ -444,3 +445,39 @@ def D4(F, rep):
                    '%s::%s (%s) has a %s' % (short(c), f['name'], f['t'], how) if ok else
                    '%s::%s (%s) has no initialiser: a freshly constructed object is encoded from indeterminate memory' % (short(c), f['name'], f['t']),
                    nontrivial=False)
+
+
+def D7(F, rep):
+    """the numeric codes are the file format: every enumerator of ObjectType that exists today has the value it had when the table
+    rules/object_type_codes.json was frozen from this code base, and no two enumerators share a value.  (D1-D3 compare code with code by
+    *name*; two enumerators that swap their numbers stay consistent by name while every file of the two types decodes as the other.)"""
+    import json as _json
+    import os as _os
+    tab = _json.load(open(_os.path.join(_os.path.dirname(_os.path.dirname(_os.path.abspath(__file__))), 'rules', 'object_type_codes.json')))['codes']
+    en = F.enums.get(OT)
+    if not en:
+        raise AnalysisBroken('enum ObjectType vanished')
+    cur = {e['name']: e['value'] for e in en['enumerators']}
+    checked = 0
+    gone = []
+    for name, val in sorted(tab.items(), key=lambda kv: kv[1]):
+        if name not in cur:
+            gone.append(name)
+            continue
+        checked += 1
+        rep.count('D7')
+        ok = cur[name] == val
+        rep.ob('D7', 'code|%s' % name, ok, '%s:%s' % (F.rel(en['file']), [e['line'] for e in en['enumerators'] if e['name'] == name][0]),
+               'ObjectType::%s = %d as in the format' % (name, val) if ok else
+               'ObjectType::%s is now %d; the BLF format (and every existing file) uses %d for it' % (name, cur[name], val), nontrivial=False)
+    vals = {}
+    for n_, v_ in cur.items():
+        vals.setdefault(v_, []).append(n_)
+    dup = {v_: ns for v_, ns in vals.items() if len(ns) > 1}
+    rep.count('D7')
+    rep.ob('D7', 'codes|distinct', not dup, '%s:%s' % (F.rel(en['file']), en.get('line')),
+           'the %d enumerators of ObjectType have distinct values' % len(cur) if not dup else 'enumerators share a value: %s' % dup, nontrivial=True)
+    if gone:
+        rep.notes.append('D7: enumerators of the frozen table that no longer exist (not checked): %s' % ', '.join(gone[:8]))
+    if checked < 100:
+        raise AnalysisBroken('D7: only %d of the %d frozen enumerators were found' % (checked, len(tab)))
